@@ -55,6 +55,8 @@ def hybrid_labels(h):
     for hh in subclasses(h):
         if hh.get("rename"):
             lb.add("has_rename")
+            if any(v.startswith("_") for v in hh["rename"].values()):
+                lb.add("renamed_to_underscore_name")
         for f in hh["fields"]:
             t = f["t"]
             lb.add("field:" + t["k"])
@@ -359,7 +361,8 @@ def _draw_h(draw, cfg, namer, depth):
         ren = {}
         for f in fields:
             if draw(st.booleans()):
-                ren[f["n"]] = "r_" + f["n"]
+                # "_name" is the usual way to hide a field behind a property
+                ren[f["n"]] = ("_" if draw(st.integers(0, 2)) == 0 else "r_") + f["n"]
         if ren:
             h["rename"] = ren
     return h
